@@ -12,7 +12,7 @@ Line protocol (addresses decimal, `0` = zero address; hashes `h<k>` interned by 
       sig = `rec/off/upg/signer/sround/sstep/sparent/svoted/soff/supg/tamper` → `<verdict> need=<n|nil>`
       (` law-violated` appended when an untampered signature over exactly the rebuilt message does not recover to its signer)
 * `add <headHeight> <rec/round/step/parent/voted/off/upg>` → `t` | `f`
-* `cv <round> <step> <parent> <perm|-> none|found/<i,j,..>` → `none need=<n>` | `found need=<n> cert=possible|impossible` | `nosv`
+* `cv <round> <step> <parent> <perm|-> none|found/<i,j,..>` → `none need=<n|nil>` | `found need=<n> cert=possible|impossible` | `panic`
 
 In the driver a signature is represented by what the REAL recovery yields for it under the message the code
 rebuilds (`σ := Option Nat`, `recover s _ := s`). -/
@@ -190,13 +190,14 @@ def step (st : St) (line : String) : St × String :=
         let thr := votesThreshold cnt final
         let votes := st.store.votesOf round
         match sv with
-        | none => (st, "nosv")
+        | none => (st, "none need=nil")
         | some svv =>
           let need := required svv thr
           let appr := fun a => svv.approved.contains a
           match countVotes recId id sv thr stp parent [votes] with
-          | none => (st, s!"none need={need}")
-          | some _ =>
+          | .none => (st, s!"none need={need}")
+          | .panic => (st, "panic")
+          | .found _ _ =>
             let claimed : Option (List Nat) :=
               match result.splitOn "/" with
               | ["found", idx] => parseList idx
